@@ -327,9 +327,10 @@ const (
 
 type MStep struct {
 	Kind  int
-	Names []string // mName (1), mMulti (n; "*" = wildcard entry)
-	Idx   []int    // mIndexUnion
-	Wild  []bool   // mIndexUnion: entry i is a wildcard (Idx[i] ignored)
+	Names []string   // mName (1), mMulti (n; "*" = wildcard entry)
+	Idx   []int      // mIndexUnion
+	Wild  []bool     // mIndexUnion: entry i is a wildcard (Idx[i] ignored)
+	Slice []*[3]*int // mIndexUnion: entry i is a slice start:end:step (nil parts omitted); nil: not a slice
 }
 
 // PathSpec is a generated path with what the generator knows about it.
@@ -1102,13 +1103,47 @@ func genModelPathFor(doc interface{}, trap bool) *PathSpec {
 			if chance(20) {
 				m = 3 + rn(4)
 			}
+			single := chance(25) // a lone slice [a:b:c]
+			if single {
+				m = 1
+			}
 			ix := make([]int, m)
 			wild := make([]bool, m)
+			slices := make([]*[3]*int, m)
 			parts := make([]string, m)
 			for j := range ix {
-				if chance(15) {
+				if !single && chance(15) {
 					wild[j] = true
 					parts[j] = "*"
+					continue
+				}
+				if single || chance(20) {
+					// a slice entry, Python semantics, parts omitted now and then
+					var sl [3]*int
+					txt := ""
+					ln := 4
+					if a, ok := cur.([]interface{}); ok && len(a) > 0 {
+						ln = len(a)
+					}
+					for q := 0; q < 3; q++ {
+						if q > 0 {
+							if q == 2 && chance(50) {
+								break
+							}
+							txt += ":"
+						}
+						if chance(55) {
+							v := rn(2*ln+3) - ln - 1
+							if q == 2 {
+								v = []int{1, 2, -1, -2, 3, 0}[rn(6)]
+							}
+							vv := v
+							sl[q] = &vv
+							txt += strconv.Itoa(v)
+						}
+					}
+					slices[j] = &sl
+					parts[j] = txt
 					continue
 				}
 				ix[j] = rn(4) - 1
@@ -1120,7 +1155,7 @@ func genModelPathFor(doc interface{}, trap bool) *PathSpec {
 				}
 				parts[j] = strconv.Itoa(ix[j])
 			}
-			st = MStep{Kind: mIndexUnion, Idx: ix, Wild: wild}
+			st = MStep{Kind: mIndexUnion, Idx: ix, Wild: wild, Slice: slices}
 			t = "[" + strings.Join(parts, ",") + "]"
 		case 4:
 			m := 2 + rn(2)
